@@ -24,7 +24,7 @@ def sync_coq_copy():
         return
     os.makedirs(COQ, exist_ok=True)
     # -c / no -t: a file is transferred only when its content differs and then gets a fresh mtime, so make rebuilds it
-    subprocess.run(["rsync", "-rlc", "--delete", "--include=*/", "--include=*.v", "--exclude=*", "--exclude=Gen/Consts.v",
+    subprocess.run(["rsync", "-rlc", "--delete", "--exclude=Gen/Consts.v", "--include=*/", "--include=*.v", "--exclude=*",
                     COQ_SRC + "/theories", COQ + "/"], check=False)
 GUARD = "MUSCLE_VERIF_HOOKS"
 NCPU = os.cpu_count() or 4
